@@ -7,6 +7,7 @@ import (
 	"regexp"
 	"strconv"
 	"strings"
+	"unicode/utf8"
 
 	"github.com/metal-toolbox/audito-maldito/internal/verifharness/hutil"
 )
@@ -727,4 +728,164 @@ func genTokenReplaced(r *hutil.Rand, idx int) genLine {
 		}
 	}
 	return genLine{Form: "token_replaced", Line: line}
+}
+
+// ---------- ORDER as an input ----------
+
+// The processor is long-lived: what it does with a line must not depend on the line processed before it.  A generated
+// case is therefore, now and then, processed right AFTER a genuine line of each recognised kind in rotation (accepted
+// publickey / certificate / password, every failure form), with or without an unrecognised line in between; and every
+// other time the follower is a failure line whose client-chosen name embeds a complete message OF THE KIND JUST
+// PROCESSED (cut at sshd's 100-byte truncation of names): state remembered from the previous line (its kind, its
+// pattern, its fields) meets client text made to look like it.  Every line is judged on its own by the property's oracle.
+var precedingForms = append(append([]string{}, formNames...), "failed_password_invalid", "max_attempts_invalid")
+
+func genGenuine(r *hutil.Rand, form string) genLine {
+	switch form {
+	case "failed_password_invalid", "max_attempts_invalid":
+		addr := genAddr(r)
+		return clientNameLine(form, genUser(r), addr, genPort(r))
+	}
+	return genForm(r, form)
+}
+
+// cutName: sshd prints at most 100 bytes of a client-chosen name (%.100s); cut at a rune boundary, no newline.
+func cutName(s string) string {
+	s = strings.NewReplacer("\n", " ", "\r", " ").Replace(s)
+	if len(s) > 100 {
+		k := 100
+		for k > 0 && !utf8.RuneStart(s[k]) {
+			k--
+		}
+		s = s[:k]
+	}
+	return s
+}
+
+// genEmbeddingName: a client-chosen name that holds a complete (or, beyond 100 bytes, truncated) message of the given form.
+func genEmbeddingName(r *hutil.Rand, form string) string {
+	inner := genGenuine(r, form).Line
+	if r.Chance(1, 3) {
+		// short field values, so that more of the message survives the truncation
+		inner = shortMessage(r, form, inner)
+	}
+	return cutName(hutil.Pick(r, []string{"", "", "", "x ", "root ", "-"}) + inner)
+}
+
+// shortMessage: the accepted forms with the shortest field values (the whole message within 100 bytes).
+func shortMessage(r *hutil.Rand, form, dflt string) string {
+	u, a, p := hutil.Pick(r, []string{"root", "a", "x y"}), hutil.Pick(r, []string{"6.6.6.6", "::1", "h"}), hutil.Pick(r, []string{"1", "22", "65535"})
+	switch form {
+	case "accepted_key", "accepted_cert":
+		m := fmt.Sprintf("Accepted publickey for %s from %s port %s ssh2: %s SHA256:%s", u, a, p, hutil.Pick(r, []string{"RSA", "ED25519"}), hutil.Pick(r, []string{"abc", "x", "AbC+/9="}))
+		if form == "accepted_cert" {
+			m += fmt.Sprintf(" ID %s (serial %d) CA RSA SHA256:%s", hutil.Pick(r, []string{"k", "ops"}), r.Intn(10), hutil.Pick(r, []string{"d", "Zz0"}))
+		}
+		return m
+	case "accepted_password":
+		return fmt.Sprintf("Accepted password for %s from %s port %s ssh2", u, a, p)
+	}
+	return dflt
+}
+
+// genOrdered: the lines to process before `next` (first a genuine line of the k-th kind), and the follower: `next` itself or,
+// every other round of the kinds, a client-name line embedding a message of that kind (mode and PID token of `next` are kept).
+func genOrdered(r *hutil.Rand, k int, next caseDesc) ([]caseDesc, caseDesc, string) {
+	form := precedingForms[k%len(precedingForms)]
+	pd := caseDesc{Tok: genPidToken(r, false), Gen: genGenuine(r, form), Mode: runMode{WriteOK: true, Ready: true, Debug: k%3 == 2}}
+	if r.Chance(1, 3) && !strings.HasPrefix(pd.Gen.Line, " ") {
+		pd.Mode.Framed = true // as in the daemon, through the syslog ingester
+	}
+	if r.Chance(1, 4) {
+		pd.Tok, pd.TokHex = next.Tok, "" // the same sshd process printed both lines
+	}
+	if pd.Mode.Framed && (strings.Contains(pd.Tok, " ") || strings.HasPrefix(pd.Gen.Line, " ")) {
+		pd.Mode.Framed = false // framed delivery is "as if handed over directly" only for such records (main.go: genCase)
+	}
+	pd.seal()
+	prevs := []caseDesc{pd}
+	if r.Chance(1, 4) {
+		// a line the processor does not recognise in between (it must not matter either)
+		u := caseDesc{Tok: genPidToken(r, false), Gen: genGenericAuth(r, 2*r.Intn(len(hostileTokens))+1), Mode: runMode{WriteOK: true, Ready: true}}
+		if r.Bool() {
+			u.Gen = genLine{Form: "unrecognised", Line: hutil.Pick(r, []string{"Connection closed by 10.0.0.1 port 22 [preauth]", "pam_unix(sshd:session): session opened for user root by (uid=0)", "Received disconnect from ::1 port 5: 11: disconnected by user", "", "Disconnected from user root 10.0.0.9 port 1"})}
+		}
+		u.seal()
+		prevs = append(prevs, u)
+	}
+	follow := next
+	if (k/len(precedingForms))%2 == 0 {
+		addr := genAddr(r)
+		for strings.ContainsAny(addr, " ") {
+			addr = genAddr(r)
+		}
+		follow.Gen = clientNameLine(clientForms[(k+k/len(precedingForms)/2)%len(clientForms)], genEmbeddingName(r, form), addr, genPort(r))
+		follow.LineHex = ""
+		if follow.Mode.Framed && (strings.Contains(follow.Tok, " ") || strings.HasPrefix(follow.Gen.Line, " ")) {
+			follow.Mode.Framed, follow.Mode.Pad = false, 0
+		}
+		follow.seal()
+	}
+	return prevs, follow, form
+}
+
+// ---------- envelopes around recognised messages ----------
+
+// What syslog daemons and collectors put AROUND a message: rsyslog's repeated-message reduction ("message repeated N times:
+// [ <msg>]", "last message repeated N times"), BSD syslogd's "--- last message repeated N times ---", a timestamp + host + tag
+// prefix left in place, RFC 5424 and journald renderings, sshd's own trailing " [preauth]", quotes, nestings and near misses
+// of these.  To the daemon a line is what it begins with: an enveloped message does not begin with a recognised keyword,
+// so nothing is emitted and nothing is counted (C11, C19), whatever N says (0 ... 1000 and beyond); with a trailing
+// " [preauth]" the line does begin with its keyword and whatever is emitted is counted once.  idx walks envelope-major
+// through (envelope, message form); no expectation about the event is attached (the oracles need none).
+var repeatCounts = []int{2, 3, 0, 1, 5, 10, 64, 100, 999, 1000, 1001, 65536, 4294967296}
+
+const nEnvelopes = 12
+
+func genEnveloped(r *hutil.Rand, idx int) genLine {
+	if idx < 0 {
+		idx = -idx
+	}
+	form := precedingForms[(idx/nEnvelopes+idx)%len(precedingForms)]
+	if r.Chance(1, 3) {
+		// the forms that hand a login over, more often
+		form = slowForms[r.Intn(len(slowForms))]
+	}
+	inner := genGenuine(r, form).Line
+	n := repeatCounts[(idx/nEnvelopes)%len(repeatCounts)]
+	if r.Chance(1, 4) {
+		n = r.Intn(1001)
+	}
+	pid := 1 + r.Intn(4000000)
+	host := hutil.Pick(r, []string{"node-7", "host.example.com", "localhost", "ip-10-0-0-7"})
+	var line string
+	switch idx % nEnvelopes {
+	case 0, 6: // rsyslog, $RepeatedMsgReduction on: exactly its form
+		line = fmt.Sprintf("message repeated %d times: [ %s]", n, inner)
+	case 1: // near misses of it
+		line = fmt.Sprintf(hutil.Pick(r, []string{"message repeated %d times: [%s]", "message repeated %d times: [ %s", "message repeated %d times: [ %s] ", "message repeated %d times: %s",
+			"Message repeated %d times: [ %s]", "message repeated %d time: [ %s]", " message repeated %d times: [ %s]", "message repeated %d times: [  %s ]", "message repeated +%d times: [ %s]"}), n, inner)
+	case 2:
+		line = fmt.Sprintf(hutil.Pick(r, []string{"last message repeated %d times", "--- last message repeated %d times ---", "last message repeated %d time"}), n)
+		if r.Chance(1, 4) { // ... with the message behind it
+			line += ": " + inner
+		}
+	case 3: // the traditional prefix left in place
+		line = fmt.Sprintf("%s %s sshd[%d]: %s", hutil.Pick(r, []string{"Oct  1 12:00:00", "Jan 31 23:59:59", "2026-10-01T12:00:00.123456+00:00"}), host, pid, inner)
+	case 4: // RFC 5424
+		line = fmt.Sprintf("<%d>1 2026-10-01T12:00:00Z %s sshd %d - - %s", hutil.Pick(r, []int{38, 86, 0, 191}), host, pid, inner)
+	case 5: // sshd's own suffix: the line begins with its keyword
+		line = inner + hutil.Pick(r, []string{" [preauth]", " [preauth]", "[preauth]", " [postauth]", " [preauth] "})
+	case 7: // tag only (journald short, busybox)
+		line = fmt.Sprintf(hutil.Pick(r, []string{"sshd[%d]: %s", "sshd-session[%d]: %s", "%d %s", "[%d] %s", "auth.info sshd[%d]: %s"}), pid, inner)
+	case 8: // nested / doubled reduction
+		line = fmt.Sprintf("message repeated %d times: [ message repeated %d times: [ %s]]", n, repeatCounts[r.Intn(len(repeatCounts))], inner)
+	case 9: // quoting and structured renderings
+		line = fmt.Sprintf(hutil.Pick(r, []string{"\"%s\"", "'%s'", "MESSAGE=%s", "{\"MESSAGE\":\"%s\"}", "msg=\"%s\"", "[%s]", "[ %s]", "(%s)", "> %s"}), inner)
+	case 10: // the reduction wrapper around a line that is not a recognised message
+		line = fmt.Sprintf("message repeated %d times: [ %s]", n, hutil.Pick(r, []string{"Connection closed by 10.0.0.1 port 22 [preauth]", "", "x", "Failed none for root from ::1 port 1 ssh2", "message repeated", "]", "[ ]"}))
+	default: // the count in other spellings
+		line = fmt.Sprintf("message repeated %s times: [ %s]", hutil.Pick(r, []string{"", "-2", "2.0", "0x10", "two", "99999999999999999999", "007", " 3", "1e3"}), inner)
+	}
+	return genLine{Form: "enveloped", Line: line}
 }
